@@ -251,6 +251,8 @@ func propC11(c *Ctx) {
 	}
 
 	// ---- all-funcs ----------------------------------------------------------------------------------
+	raa := c.Rule("all-funcs-always", "every successful return of the converter's driver lies behind the loop over the constants", 1)
+	ruleAllFuncsAlways(c, raa, convSSA)
 	ra := c.Rule("all-funcs", "conversion is applied to Main and, in a loop over all constants, to every *CompiledFunction constant", 1)
 	{
 		callers := l.StaticCallers(convSSA)
